@@ -2,7 +2,7 @@
 from typing import Dict, Optional
 
 from prettytable import MARKDOWN, PrettyTable
-from pydantic import Field, validate_call
+from pydantic import Field, validate_call, ValidationError
 
 from primaite.interface.request import RequestFormat, RequestResponse
 from primaite.simulator.core import RequestManager, RequestType
@@ -239,7 +239,13 @@ class C2Server(AbstractC2, discriminator="c2-server"):
         if connection_status[0] is False:
             return connection_status[1]
 
-        setup_success, command_options = self._command_setup(given_command, command_options)
+        try:
+            setup_success, command_options = self._command_setup(given_command, command_options)
+        except ValidationError as e:
+            self.sys_log.warning(f"{self.name}: Invalid options for command {given_command}: {e.errors()}")
+            return RequestResponse(
+                status="failure", data={"reason": f"Invalid options for command {given_command}: {e.error_count()} error(s)."}
+            )
 
         if setup_success is False:
             self.sys_log.warning(
